@@ -5,11 +5,11 @@
    tagName       : REGENERATED from catalog/tag_name.go (gen/TagName.v)
    pathTagTitle  : hand model of catalog/tag.go pathTagTitle (model/TagTitle.v), tied to the
                    Go function by the `pathtagtitle` correspondence check. *)
-From Coq Require Import List NArith Bool.
+From Coq Require Import List NArith Bool String.
 From JV.lib Require Import Bytes.
-From JV.gen Require Import TagName.
-From JV.model Require Import TagTitle.
-From JV.proofs Require Import TagNameProofs.
+From JV.gen Require Import DirectiveTables TagName.
+From JV.model Require Import ScannerSem Core TagTitle Catalog.
+From JV.proofs Require Import TagNameProofs CatalogProofs.
 Import ListNotations.
 Open Scope N_scope.
 
@@ -66,3 +66,102 @@ Theorem auto_tag_names_distinct : forall p1 p2 n1 n2,
   n1 <> n2.
 Proof. exact auto_tag_names_distinct_lemma. Qed.
 Print Assumptions auto_tag_names_distinct.
+
+(* ======================================================================================= *)
+(* catalog-level part: which tags an interaction carries (model/Catalog.v, proofs/CatalogProofs.v).
+   [build pp bt banned pre post pe = COk c]: c is the catalog of an accepted project whose expanded
+   directive forest is [post]; itags x = the tag list of interaction x; occurs post t anc = t is a
+   node of the forest with ancestors anc (innermost first); made_by t anc i = t is the GET/POST/../
+   Method directive whose interaction id is i.                                                *)
+
+(* every interaction carries at least one tag *)
+Theorem every_interaction_tagged : forall pp bt banned pre post pe c,
+  NoDup (map fst pe) ->
+  build pp bt banned pre post pe = COk c ->
+  forall i x, In (i, x) (c_inters c) -> itags x <> [].
+Proof. exact every_interaction_tagged_lemma. Qed.
+Print Assumptions every_interaction_tagged.
+
+(* the tags of an interaction are exactly tag_spec of its directive ... *)
+Theorem explicit_tags_win : forall pp bt banned pre post pe c,
+  NoDup (map fst pe) ->
+  build pp bt banned pre post pe = COk c ->
+  forall i x, In (i, x) (c_inters c) ->
+    exists t anc, occurs post t anc /\ made_by t anc i /\ itags x = tag_spec t anc i.
+Proof. exact explicit_tags_win_lemma. Qed.
+Print Assumptions explicit_tags_win.
+
+(* ... where tag_spec is: the unnamed parameters (in order) of the directive's own child Tags; else
+   those of the child Tags of its parent when the parent is a URL; else the single automatic name *)
+Theorem tag_spec_characterised : forall me anc i,
+  (forall td, child_of_kind KTags (tree_kids me) = Some td -> tag_spec me anc i = d_unnamed td) /\
+  (forall a rest td, child_of_kind KTags (tree_kids me) = None -> anc = a :: rest ->
+     d_kind (tree_dir a) = KURL -> child_of_kind KTags (tree_kids a) = Some td ->
+     tag_spec me anc i = d_unnamed td) /\
+  (child_of_kind KTags (tree_kids me) = None ->
+   (anc = [] \/ (exists a rest, anc = a :: rest /\
+                 (d_kind (tree_dir a) <> KURL \/ child_of_kind KTags (tree_kids a) = None))) ->
+   tag_spec me anc i = [auto_tag_name (i_path i)]).
+Proof. exact tag_spec_cases. Qed.
+Print Assumptions tag_spec_characterised.
+
+(* a name in the deciding Tags directive that is no key of the tag collection: "tag not found",
+   located at the Tags directive *)
+Theorem undeclared_tag_rejected : forall me anc i tags td n,
+  used_tags_directive me anc = Some td -> d_annot td = [] ->
+  In n (d_unnamed td) -> ~ In n (map fst tags) ->
+  tags_for me anc i tags = CErr (kw_err td (CEMsg "tag not found"%string)).
+Proof. exact tags_for_undeclared. Qed.
+Print Assumptions undeclared_tag_rejected.
+
+(* in an accepted catalog every tag an interaction carries exists, and every tag is either declared
+   by a top-level TAG directive (title = annotation, or the name when there is none) or is the
+   automatic tag of some interaction's path (title = pathTagTitle path) *)
+Theorem used_tags_exist : forall pp bt banned pre post pe c,
+  NoDup (map fst pe) ->
+  build pp bt banned pre post pe = COk c ->
+  forall i x n, In (i, x) (c_inters c) -> In n (itags x) ->
+    exists tg, In (n, tg) (c_tags c) /\ (declared_tag post n tg \/ automatic_tag c n tg).
+Proof. exact used_tags_exist_lemma. Qed.
+Print Assumptions used_tags_exist.
+
+Theorem declared_title : forall pp bt banned pre post pe c,
+  NoDup (map fst pe) ->
+  build pp bt banned pre post pe = COk c ->
+  forall n tg, In (n, tg) (c_tags c) -> declared_tag post n tg \/ automatic_tag c n tg.
+Proof. exact declared_title_lemma. Qed.
+Print Assumptions declared_title.
+
+(* FULL statement of "each must be declared by a TAG directive or the document is rejected" (false):
+     build ... = COk c -> In (i,x) (c_inters c) -> used_tags_directive t anc = Some td -> In n (itags x) ->
+     exists tg, In (n, tg) (c_tags c) /\ declared_tag post n tg.
+   REFUTED: a Tags directive may name the AUTOMATIC tag that an earlier interaction created.
+   JSIGHT 0.3 / GET /x {200 any} / GET /y {Tags @x, 200 any} has no TAG directive and is accepted
+   (GET /y is filed under the automatic tag @x of GET /x); with the two GETs swapped the same
+   document is rejected ("tag not found" at the Tags directive, offset 21). *)
+Theorem undeclared_tag_accepted_refuted :
+  (forall t, In t ex_undeclared_forest -> d_kind (tree_dir t) <> KTAG) /\
+  (exists c, ex_build ex_undeclared_forest = COk c /\
+     skeleton_of c = ([(bs "@x", bs "/x", [ex_get_x; ex_get_y], [])],
+                      [(bs "http GET /x", ex_get_x, [bs "@x"]); (bs "http GET /y", ex_get_y, [bs "@x"])])) /\
+  (exists e, ex_build ex_swapped_forest = CErr e /\ ce_kind e = CEMsg "tag not found"%string /\ ce_idx e = 21).
+Proof. exact undeclared_tag_accepted. Qed.
+Print Assumptions undeclared_tag_accepted_refuted.
+
+(* interactions without explicit tags: same automatic tag name <=> same first path segment
+   (pathTagTitle = "/" ++ first segment); all_bytes: every byte < 256 *)
+Theorem auto_tags_shared_and_distinct : forall p1 p2,
+  all_bytes p1 = true -> all_bytes p2 = true ->
+  (auto_tag_name p1 = auto_tag_name p2 <-> pathTagTitle p1 = pathTagTitle p2).
+Proof. exact auto_tags_shared_and_distinct_lemma. Qed.
+Print Assumptions auto_tags_shared_and_distinct.
+
+(* recorded observation: a DECLARED tag whose name is the automatic name of a path captures the
+   interactions of that path.  JSIGHT 0.3 / TAG @x // My X / GET /x {200 any}: GET /x carries the single
+   tag @x (its automatic name), whose title is "My X"; no tag titled "/x" exists. *)
+Theorem declared_tag_captures_automatic :
+  exists c, ex_build ex_captured_forest = COk c /\
+    skeleton_of c = ([(bs "@x", bs "My X", [ex_get_x], [])], [(bs "http GET /x", ex_get_x, [bs "@x"])]) /\
+    auto_tag_name (bs "/x") = bs "@x" /\ pathTagTitle (bs "/x") = bs "/x".
+Proof. exact declared_tag_captures_automatic_lemma. Qed.
+Print Assumptions declared_tag_captures_automatic.
